@@ -519,6 +519,20 @@ def bitfield_of(P, t):
     if inner[0] == "load" and inner[1][0] == "field":
         fld = inner[1]
         sub = P.bitfields.get((fld[2], fld[3]))
+        if not sub and "|" in fld[3]:
+            # bit-field members declared directly in a named struct share one storage unit
+            sd = P.structs.get(fld[2], {})
+            names = fld[3].split("|")
+            mems = [m for m in sd.get("members", []) if m["name"] in names]
+            if mems:
+                unit = min(m["off_bits"] for m in mems) // 8 * 8
+                idx = mems[0]["idx"]
+                unit = sd["fields"][idx]["off"] * 8
+                width = bin(mask).count("1") if mask is not None else None
+                for m in mems:
+                    if m["off_bits"] - unit == shift and (width is None or m["size_bits"] == width):
+                        return (fld[1], m["name"])
+            return None
         if not sub:
             return None
         if mask is None:
@@ -532,4 +546,23 @@ def bitfield_of(P, t):
         name = P.bitfield_name(fld[2], fld[3], shift, mask)
         if name:
             return (fld[1], name)
+    return None
+
+
+def global_text(P, g):
+    """text of a global char array initialiser (string literal or array of chars)"""
+    init = g.get("init")
+    if not isinstance(init, list) or not init:
+        return None
+    if init[0] == "s":
+        return init[1]
+    if init[0] == "agg":
+        try:
+            cs = [P.const_int(x) for x in init[1]]
+            if cs and all(c is not None for c in cs):
+                while cs and cs[-1] == 0:
+                    cs.pop()
+                return "".join(chr(c & 0xFF) for c in cs)
+        except Exception:
+            return None
     return None
